@@ -145,6 +145,7 @@ pub struct Core {
     /// per thread: the node it last saw marked as removed (what it is waiting for when it spins)
     pub last_removed_seen: Vec<Option<usize>>,
     pub sentinel_addr: usize,
+    pub c03_checks: u64,
     /// free list as walked (raw reads) at the moment a hang was declared
     pub hang_list: Vec<(u32, u32, u32)>,
 }
@@ -230,6 +231,7 @@ impl Core {
             pending_unlink: vec![],
             last_removed_seen: vec![],
             sentinel_addr: 0,
+            c03_checks: 0,
             hang_list: vec![],
         }
     }
